@@ -37,6 +37,8 @@ var tplOutside = []string{
 	`{{ template "x" }}`, `{{ define "x" }}y{{ end }}`, `{{ end }}`, `{{ else }}`, `{{ break }}`, `{{ printf "%v %v" .a .b }}`, `{{ .a | len | print }}`,
 	`{{ $ }}`, `{{ $.a }}`, `{{ .a}}}`, `{{{ .a }}`, `{{ .a }`, `{ { .a } }`, `{{ . a }}`, `{{ .a. b }}`, `{{ .a .}}`, `{{.a|.b|.c}}`, `{{ .a|. }}`,
 	`{{.}}{{.}}`, `{{- . -}}`, `{{-.a}}`, `{{.a-}}`, `{{ - .a }}`, `{{ .a - }}`, "{{\n.a\n}}", `{{.a:}}`, `{{.a)}}`, `{{(.a}}`, `{{.a(}}`, `{{ .a | }}`, `{{ | }}`,
+	`{{ html .a }}`, `{{ print .a .b }}`, `{{ print.a }}`, `{{ println }}`, `{{ urlquery .a | print }}`, `{{ foo }}`, `{{ .a | foo }}`, `{{ print . }}`, `{{/* */}}x`,
+	`{{/* a */ }}`, `{{- /* a */}}`, `{{/* a */ -}}  y`, `{{ printx .a }}`, `{{ eq .a .b }}`, `{{ _ }}`, `{{ print_ }}`, `{{ print. }}`, `{{ .a|print|len }}`, `{{/* a`, `{{/**/}}`,
 	`{{ .a || .b }}`, `{{ .A.B.C.D }}`, `{{ ._ }}`, `{{ .__a__ }}`, `{{ .a;.b }}`, `{{ .a#b }}`, `{{ .a "x" }}`, `{{ .a 1 }}`, `{{ and .a .b }}`, `{{ not .a }}`,
 }
 
